@@ -185,11 +185,14 @@ func (c *Component) SendIQ(ctx context.Context, iq *stanza.IQ) (chan stanza.IQ, 
 	if iq.Attrs.Type != stanza.IQTypeSet && iq.Attrs.Type != stanza.IQTypeGet {
 		return nil, ErrCanOnlySendGetOrSetIq
 	}
+	// Register the pending route before writing the request: the response can arrive at any time after the write
+	result := c.router.NewIQResultRoute(ctx, iq.Attrs.Id)
 	if err := c.Send(iq); err != nil {
+		c.router.removeIQResultRoute(iq.Attrs.Id)
 		return nil, err
 	}
 	verifPoint("sendiq.sent", iq.Attrs.Id)
-	return c.router.NewIQResultRoute(ctx, iq.Attrs.Id), nil
+	return result, nil
 }
 
 // SendRaw sends an XMPP stanza as a string to the server.
